@@ -1,16 +1,16 @@
 SPECIFICATION Spec
 CONSTANTS
-  Ids = {"x"}
-  MaxLen = 3
-  MaxDepth = 2
-  MixKinds = TRUE
-  AsmForms = TRUE
+  Ids = {"x", "y", "z"}
+  MaxLen = 4
+  MaxDepth = 0
+  MixKinds = FALSE
+  AsmForms = FALSE
   AsmFirst = FALSE
   Kinds = {"obj", "func"}
-  Family = "all"
+  Family = "tentative"
   DevsOn = {"ThreadNoTentative", "ThreadMismatchNotDiagnosed", "InlineLateExternal", "NoUsedInternalUndefDiag"}
   OkPrefix = FALSE
-  SampleMod = 4
+  SampleMod = 1
   Emit = "all"
 INVARIANTS Inv_Refines Inv_OneDef Inv_ExportedExt Inv_FiredExplains Inv_Emit
 CHECK_DEADLOCK FALSE
